@@ -73,12 +73,13 @@ ASSUMPTIONS = ["the harness evaluator Program.evaluate (no dask) gives the value
                "dask.core.get and dask.get execute a graph correctly when they agree with the harness evaluator on the "
                "unoptimised graph (checked per case) — an executor bug that only shows on optimised graphs is reported here",
                "numpy/python reference for borrowed array/bag graphs"]
-BUDGET = {"quick": 90, "thorough": 1500}
+BUDGET = {"quick": 90, "thorough": 900}
 EXHAUSTIVE_SPACE = {
     "quick": "all DAG shapes on n<=4 topologically numbered nodes x all node-kind assignments over {lit,call,alias,seq} "
-             "(2012 programs; n<=3 also with the nested-list/key-like-literal call kind) x all non-empty requested-key "
+             "(1900 programs on 4 nodes; the 170 programs on <=3 nodes also with the nested-list/key-like-literal call kind) x all non-empty requested-key "
              "subsets x fixed grid (20 fuse settings, 3 fuse_linear, cull x2 forms, inline_functions x2, linear "
-             "task-spec fusion, resolve_aliases) + per program all inline key subsets x constants on/off, all "
+             "task-spec fusion, resolve_aliases; graph dict in topological order, reversed order with every 4th fuse "
+             "setting) + per program all inline key subsets x constants on/off, all "
              "single-output task subsets for Task.fuse, all (node, dependency) substitutions",
     "thorough": "same with the nested-list call kind for n<=4 (4226 programs) and the full fuse grid ave_width{1,2,3,inf} x "
                 "max_width{default,1,2} x max_height{default,1,2} x max_depth_new_edges{default,1,2} x "
@@ -104,8 +105,22 @@ PENDING = {
 }
 
 FLOORS = {
-    "quick": {"evaluations": 10, "distinct_nontrivial": 5},
-    "thorough": {"evaluations": 10, "distinct_nontrivial": 5},
+    # ~45 % of the counts of a complete run on the unchanged tree (seed 0: 3170 cases, 1.75 M optimiser calls)
+    "quick": {"evaluations": 1500, "distinct_nontrivial": 1400, "max_skipped_fraction": 0.05,
+              "counters": {"optimiser_calls": 800000, "requested_subsets": 17000, "requested_values_compared": 2200000,
+                           "dependency_maps_checked": 500000, "graphs_changed_by_optimiser": 330000,
+                           "evaluated_with_core_get": 130000, "evaluated_with_dask_get": 45000,
+                           "baseline_graphs_agreeing_with_harness": 3100,
+                           "changed:cull": 43000, "changed:fuse": 130000, "changed:fuse_linear": 24000,
+                           "changed:inline": 30000, "changed:inline_functions": 22000,
+                           "changed:fuse_linear_task_spec": 7400, "changed:resolve_aliases": 6700,
+                           "changed:Task.fuse": 18000, "changed:substitute": 22000},
+              "sets": {"fuse_settings": 150}},
+    "thorough": {"evaluations": 9000, "distinct_nontrivial": 8500, "max_skipped_fraction": 0.05,
+                 "counters": {"optimiser_calls": 8000000, "dependency_maps_checked": 5000000,
+                              "graphs_changed_by_optimiser": 3000000, "evaluated_with_core_get": 1000000,
+                              "evaluated_with_dask_get": 300000, "baseline_graphs_agreeing_with_harness": 20000},
+                 "sets": {"fuse_settings": 150}},
 }
 
 INF = float("inf")
